@@ -39,7 +39,7 @@ MODELLED = ('image.py _CombinedPixelTransform.__init__ (flag gate, discovery roo
             'get_total_pixel_matrix) transform reuse; get_volume_from_series; pixels.py selectors, apply_voi_window, apply_lut, '
             '_check_rescale_dtype, palette LUT parsing; content.py LUT (descriptor, lut_data, scaled, inverted, '
             'apply), VOILUTTransformation.apply; pm/content.py RealWorldValueMapping.apply')
-STRATA = ['mono', 'mono_mf', 'mono_mf_nonuniform', 'mono_vol', 'series', 'tpm', 'flags', 'palette', 'lut', 'lut_big', 'lut_err', 'voi_apply', 'rwvm_apply',
+STRATA = ['mono', 'mono_mf', 'mono_mf_nonuniform', 'mono_vol', 'series', 'series_voi', 'series_attr', 'tpm', 'flags', 'palette', 'lut', 'lut_big', 'lut_err', 'voi_apply', 'rwvm_apply',
           'window', 'malformed']
 NOT_EXECUTED = ['ICC colour management (no ICC profile in the synthetic images; out of the property)',
                 'segmented palette colour LUTs (the code raises RuntimeError: not implemented)',
@@ -51,7 +51,15 @@ RULE = ('mono: single-frame images, random modality (rescale integer / dyadic / 
         'LUT selected by index, label, unit; random tri-state flags, output range, dtype. mono_mf: the same with '
         'parameters shared or per-frame, get_frame(i) and get_frames (all / subset / reversed / repeated frames). '
         'mono_vol: get_volume of a multi-frame stack with shuffled slice positions. series: get_volume_from_series over '
-        '2-3 single-frame images (optionally different rescale per slice). tpm: get_total_pixel_matrix of a tiled 8-bit '
+        '2-3 single-frame images (optionally different rescale per slice). series_voi: get_volume_from_series over 2-5 '
+        'instances (any input order) whose rescale is IDENTICAL (or absent, or constant over runs of adjacent slices) while '
+        'the VOI window differs from slice to slice: every centre / width, one re-windowed slice, only the width, only the '
+        'centre, only VOILUTFunction, permuted explanations (string selector), a different number of alternatives (selector '
+        '-1), window absent on some slices; windows placed on the rescaled value range so that a wrong window is visible. '
+        'series_attr: ONE other transform-relevant attribute differs from slice to slice while all the others are equal: '
+        'RescaleSlope, RescaleIntercept, presence of the rescale, VOILUTSequence (data / first value), ModalityLUTSequence, '
+        'PhotometricInterpretation, PresentationLUTShape, RealWorldValueMappingSequence, BitsStored; float32 volumes are '
+        're-run and value-checked by the oracle. tpm: get_total_pixel_matrix of a tiled 8-bit '
         'monochrome image, parameters in the shared group. mono_mf_nonuniform: per-frame groups that do NOT all carry the '
         'same kinds of parameters (open finding D106), read through get_frame / get_frames / get_volume. flags: all 3^5 x 2 flag vectors on fixed '
         'datasets. palette: 8/16-bit tables, odd/even lengths, any first value. lut*: LUT objects incl. 65536 entries '
@@ -61,7 +69,8 @@ EXHAUSTIVE = {'quick': False, 'thorough': False}
 
 TRI = [True, False, None]
 FN = ['LINEAR', 'LINEAR_EXACT', 'SIGMOID']
-MONO_KINDS = ('mono', 'mono_mf', 'flags', 'malformed', 'mono_vol', 'series', 'tpm', 'mono_mf_nonuniform')
+MONO_KINDS = ('mono', 'mono_mf', 'flags', 'malformed', 'mono_vol', 'series', 'series_voi', 'series_attr', 'tpm',
+              'mono_mf_nonuniform')
 DTYPES = ['float64', 'float64', 'float64', 'float32', 'int16', 'uint16', 'int32', 'uint8', 'int64']
 
 
@@ -392,6 +401,262 @@ def _series_case(rng):
     return c
 
 
+def _series_skeleton(rng, unsigned=False):
+    """n single-frame instances of one series with NOTHING to apply yet (no rescale, window, LUT, RWVM):
+    the callers put parameters on the slices.  Instances are listed in c['frames'] order (= input order
+    of the datasets), slice i sits at z = zs[i] (shuffled: the input order is not the spatial order)."""
+    while True:
+        c = _mono_case(rng, False)
+        if not (unsigned and c['signed']):
+            break
+    n = rng.choice([2, 3, 3, 4, 4, 5])
+    c['frames'] = _more_frames(rng, c, n)
+    zs = [2.5 * i for i in range(n)]
+    rng.shuffle(zs)
+    c.update(modlut=None, voiluts=None, root=_empty_level(), vsel=0, rsel=0, api='series', zs=zs,
+             mono1=rng.random() < 0.4, pls=rng.choice([None, None, None, 'IDENTITY', 'INVERSE']),
+             yrange=rng.choice([['0', '1'], ['0', '1'], ['0', '255'], ['-1', '1'], ['1/2', '3/4']]),
+             dtype=rng.choice(['float64'] * 9 + ['float32']),
+             flags={'rwvm': rng.choice([False, None]), 'mod': rng.choice([None, None, True]),
+                    'voi': rng.choice([True, None, None]), 'pres': rng.random() < 0.7, 'pal': None, 'icc': None})
+    c.pop('prior', None)
+    return c
+
+
+def _series_rescale(rng):
+    if rng.random() < 0.6:
+        return str(rng.choice([1, 1, 2, 3, -1, -2])), str(rng.choice([0, -1024, -100, 10, -3, 7]))
+    return str(F(rng.choice([1, 3, 5, -3]), rng.choice([2, 4]))), str(F(rng.randint(-40, 40), rng.choice([1, 2, 4])))
+
+
+def _value_range(c, m, b):
+    vals = [F(m) * x + F(b) for fr in c['frames'] for x in fr]
+    return min(vals), max(vals)
+
+
+def _window_on(rng, lo, hi, k=1, expl=None, fn=None):
+    """k window alternatives placed ON the value range [lo, hi] (so that two different windows give
+    visibly different values, not two saturated images)"""
+    span = max(F(4), hi - lo)
+    cs, ws = [], []
+    for _ in range(k):
+        cs.append(str(lo + span * F(rng.randint(1, 7), 8) + F(rng.randint(0, 1), 2)))
+        ws.append(str(max(F(3), span * F(rng.choice([3, 4, 6, 8, 12, 16]), 8)) + F(rng.randint(0, 1), 2)))
+    return {'centers': cs, 'widths': ws, 'expl': expl, 'fn': fn}
+
+
+def _other_window(rng, lo, hi, w, what='both'):
+    """a window with the same structure as w but other centres and / or widths"""
+    for _ in range(20):
+        w2 = _window_on(rng, lo, hi, len(w['centers']), w['expl'], w['fn'])
+        if what == 'width':
+            w2['centers'] = list(w['centers'])
+        elif what == 'center':
+            w2['widths'] = list(w['widths'])
+        if all(a != b for a, b in zip(w2['centers'], w['centers'])) or \
+                all(a != b for a, b in zip(w2['widths'], w['widths'])):
+            return w2
+    return w2
+
+
+SERIES_VOI_MODES = ['all', 'all', 'one', 'one', 'fn', 'fn', 'width', 'center', 'expl', 'count', 'presence', 'runs',
+                    'runs']
+
+
+def _series_voi_case(rng, mode=None):
+    """get_volume_from_series over instances whose rescale is the same (or changes only between runs of
+    adjacent slices) while the VOI WINDOW differs from slice to slice (per-slice auto-windowing, one
+    re-windowed slice, another VOILUTFunction ...): every slice must be windowed with the window of its
+    own instance"""
+    c = _series_skeleton(rng)
+    mode = mode or rng.choice(SERIES_VOI_MODES)
+    n = len(c['frames'])
+    order = _vol_order(c)                   # instance indices in the slice order of the volume
+    m, b = _series_rescale(rng) if rng.random() < 0.75 else (None, None)
+    res = [(m, b)] * n
+    if mode == 'runs':
+        # the rescale changes between runs of adjacent slices, the window changes inside the runs too
+        m2, b2 = _series_rescale(rng)
+        cut = rng.randint(1, n - 1) if n > 2 else 1
+        for rank, i in enumerate(order):
+            if rank >= cut:
+                res[i] = (m2, b2)
+        res = list(res)
+    lo, hi = _value_range(c, m or 1, b or 0)
+    k = 2 if mode in ('expl', 'count') else rng.choice([1, 1, 1, 2])
+    expl = [f'W{i}' for i in range(k)] if (mode == 'expl' or rng.random() < 0.3) else None
+    fn = rng.choice([None] + FN)
+    w0 = _window_on(rng, lo, hi, k, expl, fn)
+    wins = [dict(w0) for _ in range(n)]
+    if mode in ('all', 'runs', 'width', 'center'):
+        for i in range(1, n):
+            wins[i] = _other_window(rng, lo, hi, wins[i - 1], {'width': 'width', 'center': 'center'}.get(mode, 'both'))
+    elif mode == 'one':
+        j = order[rng.randint(1, n - 1)]     # not the first slice of the volume
+        wins[j] = _other_window(rng, lo, hi, w0, rng.choice(['both', 'width', 'center']))
+    elif mode == 'fn':
+        fns = [rng.choice([None] + FN) for _ in range(n)]
+        while len({f or 'LINEAR' for f in fns}) < 2:
+            fns[rng.randrange(n)] = rng.choice(FN)
+        wins = [dict(w0, fn=f) for f in fns]
+    elif mode == 'expl':
+        # the same explanations in another order: a string selector finds another index on each slice
+        for i in range(n):
+            if rng.random() < 0.5:
+                wins[i] = dict(w0, expl=list(reversed(w0['expl'])))
+        if len({tuple(w['expl']) for w in wins}) < 2:
+            wins[order[-1]] = dict(w0, expl=list(reversed(wins[order[0]]['expl'])))
+        c['vsel'] = rng.choice(['W0', 'W1', 'W1'])
+    elif mode == 'count':
+        for i in range(n):
+            if rng.random() < 0.5:
+                wins[i] = dict(w0, centers=w0['centers'][:1], widths=w0['widths'][:1],
+                               expl=(w0['expl'][:1] if w0['expl'] else None))
+        if len({len(w['centers']) for w in wins}) < 2:
+            j = order[-1]
+            wins[j] = dict(w0, centers=w0['centers'][:1], widths=w0['widths'][:1],
+                           expl=(w0['expl'][:1] if w0['expl'] else None))
+        c['vsel'] = rng.choice([-1, -1, 0, 1])
+    elif mode == 'presence':
+        for i in range(n):
+            if rng.random() < 0.4:
+                wins[i] = None
+        if all(w is None for w in wins) or all(w is not None for w in wins):
+            wins[order[-1]] = None if wins[order[0]] is not None else dict(w0)
+        c['flags']['voi'] = rng.choice([None, None, True])
+    if mode not in ('expl', 'count') and rng.random() < 0.15:
+        c['vsel'] = rng.choice([-1, 1, 'W0', 'W1']) if k == 2 else rng.choice([-1, 'W0'])
+    if any(r == (None, None) for r in res):
+        c['flags']['mod'] = None
+    c['slice_roots'] = [{'rwvm': None, 'slope': res[i][0], 'icpt': res[i][1], 'win': wins[i]} for i in range(n)]
+    c['root'] = c['slice_roots'][0]
+    c.update(kind='series_voi', smode=mode)
+    return c
+
+
+SERIES_ATTR_MODES = ['slope', 'icpt', 'rescale_presence', 'voiluts', 'voiluts', 'modlut', 'mono1', 'pls', 'rwvm',
+                     'stored', 'window_and_rescale']
+
+
+def _series_attr_case(rng, mode=None):
+    """get_volume_from_series over instances that differ in exactly ONE transform-relevant attribute
+    other than the window (the window / everything else identical on all slices)"""
+    mode = mode or rng.choice(SERIES_ATTR_MODES)
+    c = _series_skeleton(rng, unsigned=mode in ('modlut', 'voiluts'))
+    n = len(c['frames'])
+    order = _vol_order(c)
+    m, b = _series_rescale(rng)
+    if mode in ('voiluts', 'modlut') or (mode in ('mono1', 'pls', 'stored', 'rwvm') and rng.random() < 0.4):
+        m = b = None
+    res = [(m, b)] * n
+    over = [dict() for _ in range(n)]
+    rw = [None] * n
+    if mode in ('slope', 'window_and_rescale'):
+        ms = rng.sample(['1', '2', '3', '4', '-1', '-2', '1/2', '3/2'], n)
+        res = [(ms[i], b) for i in range(n)]
+    elif mode == 'icpt':
+        bs = rng.sample([0, 1, -2, 5, -1024, 10, 7], n)
+        res = [(m, str(F(b) + bs[i])) for i in range(n)]
+    elif mode == 'rescale_presence':
+        res = [(m, b) if rng.random() < 0.5 else (None, None) for _ in range(n)]
+        if len(set(res)) < 2:
+            res[order[-1]] = (None, None) if res[order[0]] != (None, None) else (m, b)
+    lo = min(F(r[0] or 1) * x + F(r[1] or 0) for r in res for fr in c['frames'] for x in fr)
+    hi = max(F(r[0] or 1) * x + F(r[1] or 0) for r in res for fr in c['frames'] for x in fr)
+    w0 = None
+    if mode not in ('voiluts', 'rwvm', 'stored') and rng.random() < 0.7:
+        w0 = _window_on(rng, lo, hi, 1, None, rng.choice([None] + FN))
+    wins = [w0] * n
+    if mode == 'window_and_rescale':
+        # PET-like: rescale AND window differ on every slice
+        w0 = _window_on(rng, lo, hi, 1, None, rng.choice([None] + FN))
+        wins = [w0]
+        for i in range(1, n):
+            wins.append(_other_window(rng, lo, hi, wins[-1]))
+        c['flags']['voi'] = rng.choice([True, None])
+    if mode == 'voiluts':
+        l0 = _lut(rng, lo_len=3, expl='V0', bits=16)
+        for i in range(n):
+            li = dict(l0)
+            if i > 0:
+                how = rng.choice(['data', 'data', 'first', 'both'])
+                if how in ('data', 'both'):
+                    top = max(max(l0['data']), 255)
+                    li['data'] = [rng.randint(0, top) for _ in l0['data']]
+                    if len(set(li['data'])) == 1:
+                        li['data'][0] = (li['data'][0] + 1) % (top + 1)
+                if how in ('first', 'both'):
+                    li['first'] = l0['first'] + i
+            over[i]['voiluts'] = [li]
+        c['vsel'] = rng.choice([0, 0, -1, 'V0'])
+    elif mode == 'modlut':
+        l0 = _lut(rng, lo_len=3, bits=rng.choice([8, 16]))
+        l0['first'] = rng.choice([0, 1, 2])
+        for i in range(n):
+            li = dict(l0)
+            if i > 0:
+                top = 255 if l0['bits'] == 8 else max(max(l0['data']), 255)
+                li['data'] = [rng.randint(0, top) for _ in l0['data']]
+                if len(set(li['data'])) == 1:
+                    li['data'][0] = (li['data'][0] + 1) % (top + 1)
+            over[i]['modlut'] = li
+        # a window on the table's value range
+        if w0 is not None:
+            vals = [v for o in over for v in o['modlut']['data']]
+            w0 = _window_on(rng, F(min(vals)), F(max(vals)), 1, None, w0['fn'])
+            wins = [w0] * n
+    elif mode == 'mono1':
+        c['pls'] = None
+        ms1 = [rng.random() < 0.5 for _ in range(n)]
+        if len(set(ms1)) < 2:
+            ms1[order[-1]] = not ms1[order[0]]
+        for i in range(n):
+            over[i]['mono1'] = ms1[i]
+        c['flags']['pres'] = rng.random() < 0.9
+    elif mode == 'pls':
+        ps = [rng.choice([None, 'IDENTITY', 'INVERSE']) for _ in range(n)]
+        if len({(p == 'INVERSE') if p else c['mono1'] for p in ps}) < 2:
+            ps[order[-1]] = 'IDENTITY' if ((ps[order[0]] == 'INVERSE') if ps[order[0]] else c['mono1']) else 'INVERSE'
+        for i in range(n):
+            over[i]['pls'] = ps[i]
+        c['flags']['pres'] = rng.random() < 0.9
+    elif mode == 'rwvm':
+        plo, phi = ((-(2 ** (c['stored'] - 1)), 2 ** (c['stored'] - 1) - 1) if c['signed'] else (0, 2 ** c['stored'] - 1))
+        sl = rng.sample(['1', '2', '3/2', '-1', '1/4', '5'], n)
+        for i in range(n):
+            rw[i] = [{'label': 'L0', 'unit': 0, 'kind': 'lin', 'slope': sl[i], 'icpt': _q(rng, -50, 50),
+                      'first': plo, 'last': phi, 'dbl': False}]
+        c['flags'].update(rwvm=rng.choice([None, None, True]), mod=rng.choice([None, False]), voi=False)
+        c['rsel'] = rng.choice([0, 0, 'L0', -1])
+    elif mode == 'stored':
+        # BitsStored differs: the inversion of bare stored / rescaled values runs over another range
+        c['alloc'] = 16
+        top = max(abs(x) for fr in c['frames'] for x in fr)
+        need = max(2, top.bit_length() + (1 if c['signed'] else 0))
+        ss = [rng.choice([need, min(16, need + 1), 12, 16]) for _ in range(n)]
+        ss = [max(need, min(16, v)) for v in ss]
+        if len(set(ss)) < 2:
+            ss[order[-1]] = 16 if ss[order[0]] != 16 else max(need, 12 if need <= 12 else need)
+        c['stored'] = ss[0]
+        for i in range(n):
+            over[i]['stored'] = ss[i]
+        c['mono1'], c['pls'] = True, rng.choice([None, None, 'INVERSE'])
+        c['flags'].update(rwvm=False, voi=False, pres=rng.random() < 0.9)
+    if mode in ('mono1', 'pls') and w0 is None:
+        c['flags']['voi'] = rng.choice([False, None])
+    if w0 is None and mode not in ('voiluts', 'window_and_rescale') and rng.random() < 0.3:
+        c['dtype'] = rng.choice(['int32', 'int16', 'float64'])
+    if mode != 'modlut' and all(r == (None, None) for r in res) and c['flags']['mod'] is True:
+        c['flags']['mod'] = None
+    c['slice_roots'] = [{'rwvm': rw[i], 'slope': res[i][0], 'icpt': res[i][1], 'win': wins[i]} for i in range(n)]
+    c['root'] = c['slice_roots'][0]
+    c['slice_over'] = over if any(over) else None
+    if c['slice_over']:
+        c.update(over[0])
+    c.update(kind='series_attr', smode=mode)
+    return c
+
+
 def _tpm_case(rng):
     """get_total_pixel_matrix of a tiled 8-bit monochrome image, parameters in the shared group"""
     while True:
@@ -557,6 +822,11 @@ def gen_cases(rng, tier):
         cases.append(_nonuniform_case(rng))
     for _ in range(30 * n):
         cases.append(_series_case(rng))
+    for i in range(44 * n):
+        # every mode is drawn in every run
+        cases.append(_series_voi_case(rng, SERIES_VOI_MODES[i % len(SERIES_VOI_MODES)] if i < 26 else None))
+    for i in range(33 * n):
+        cases.append(_series_attr_case(rng, SERIES_ATTR_MODES[i % len(SERIES_ATTR_MODES)] if i < 22 else None))
     for _ in range(24 * n):
         cases.append(_tpm_case(rng))
     # all flag vectors on the fixed datasets (quick: every vector on one of them, round-robin)
@@ -806,7 +1076,13 @@ def _build_image(c):
 
 def _slice_case(c, i):
     """the single-frame image of slice i of a 'series' case"""
-    return dict(c, frames=[c['frames'][i]], root=c['slice_roots'][i], perframe=None, shared=None, fi=0)
+    d = dict(c, frames=[c['frames'][i]], root=c['slice_roots'][i], perframe=None, shared=None, fi=0,
+             slice_roots=None, slice_over=None)
+    if c.get('slice_over'):
+        # attributes outside the root level that differ from instance to instance
+        # (mono1, pls, modlut, voiluts, stored)
+        d.update(c['slice_over'][i])
+    return d
 
 
 def _build_series(c):
@@ -1305,6 +1581,9 @@ def _exp_tab(keys):
 def _sigmoid_keys_mono(c):
     """every exp argument the folded transform can need: all (window alternative, rescale
     alternative, inversion) combinations x all values the window may be applied to."""
+    if c.get('api') == 'series' and c.get('slice_roots'):
+        # one instance per slice: the arguments each instance's own transform can need
+        return [k for i in range(len(c['frames'])) for k in _sigmoid_keys_mono(_slice_case(c, i))]
     wins = []
     lvls = [c['root']] + ([c['shared']] if c['shared'] else []) + (c['perframe'] or []) + (c.get('slice_roots') or [])
     for lv in lvls:
@@ -1699,6 +1978,17 @@ def _oracle(c, out):
                 if any(e[0] in ('err', 'any') for e in exps) or not c['dtype'].startswith('float64'):
                     return None
                 return f'{c["api"]} refused with {out}, every frame is valid'
+            if out == 'ok' and c['api'] == 'series' and c['dtype'] == 'float32':
+                # float32 volume of a series: the model only sees 'ok'; the values are checked here
+                import highdicom as hd
+                vol = hd.get_volume_from_series(_build_series(c), **_call_kw(c))
+                for k, i in enumerate(fis):
+                    exp = _expected_mono(*sub(i))
+                    if exp[0] == 'val':
+                        m = _cmp_vals(vol.array[k].reshape(-1).tolist(), exp[1], 1e-4)
+                        if m:
+                            return f'frame {i} (output position {k}, float32): {m}'
+                return None
             if out == 'ok':
                 return None
             if len(out) != len(fis):
@@ -1890,8 +2180,51 @@ def nontrivial(c, out):
     return len(set(flat(out))) >= 2
 
 
+def _shrink_series(c):
+    """series cases: drop one instance (at least two stay, positions re-spaced regularly in the same
+    order), then simplify what all instances share, then one pixel per slice"""
+    n = len(c['frames'])
+    if c['dtype'] != 'float64':
+        yield dict(c, dtype='float64')
+    if n > 2:
+        for j in range(n):
+            keep = [i for i in range(n) if i != j]
+            rank = sorted(keep, key=lambda i: c['zs'][i])
+            zs = {i: 2.5 * r for r, i in enumerate(rank)}
+            d = dict(c, frames=[c['frames'][i] for i in keep], zs=[zs[i] for i in keep],
+                     slice_roots=[c['slice_roots'][i] for i in keep])
+            if c.get('slice_over'):
+                d['slice_over'] = [c['slice_over'][i] for i in keep]
+            yield d
+    for key in ('rwvm', 'win'):
+        if any(r[key] is not None for r in c['slice_roots']):
+            yield dict(c, slice_roots=[dict(r, **{key: None}) for r in c['slice_roots']])
+    if any(r['slope'] is not None or r['icpt'] is not None for r in c['slice_roots']):
+        yield dict(c, slice_roots=[dict(r, slope=None, icpt=None) for r in c['slice_roots']])
+    if c.get('slice_over'):
+        for key in ('modlut', 'voiluts', 'mono1', 'pls', 'stored'):
+            if any(key in o for o in c['slice_over']):
+                yield dict(c, slice_over=[{a: b for a, b in o.items() if a != key} for o in c['slice_over']])
+    if c['mono1'] or c['pls']:
+        yield dict(c, mono1=False, pls=None)
+    if c['vsel'] != 0:
+        yield dict(c, vsel=0)
+    if c['yrange'] != ['0', '1']:
+        yield dict(c, yrange=['0', '1'])
+    for fk, fv in c['flags'].items():
+        dflt = {'rwvm': None, 'mod': None, 'voi': False, 'pres': True, 'pal': None, 'icc': None}[fk]
+        if fv != dflt:
+            yield dict(c, flags=dict(c['flags'], **{fk: dflt}))
+    if c['rows'] * c['cols'] > 1:
+        for i in range(c['rows'] * c['cols']):
+            yield dict(c, rows=1, cols=1, frames=[[fr[i]] for fr in c['frames']])
+
+
 def shrink(c):
     k = c['kind']
+    if k in MONO_KINDS and c.get('api') == 'series':
+        yield from _shrink_series(c)
+        return
     if k in MONO_KINDS:
         if c['dtype'] != 'float64':
             yield dict(c, dtype='float64')
